@@ -131,9 +131,14 @@ func (c10) Run(t *tape.Tape, st *Stats) *Violation {
 	defer simrt.ResetSteps(0)
 	racesBefore := simrt.RaceErrors()
 	var panicked interface{}
+	var atReturn [][]uint8
 	res := simrt.Run(sc, func() {
 		defer func() { panicked = recover() }()
 		tr.image(dstArg, srcArg, par)
+		// the caller looks at the destination as soon as the call has returned
+		// (workers that are still running then are a defect: their writes race
+		// with this read and the picture is incomplete)
+		atReturn = snapshotPlanes(dst.Parent)
 	})
 	races := simrt.RaceErrors() - racesBefore
 
@@ -189,6 +194,13 @@ func (c10) Run(t *tape.Tape, st *Stats) *Violation {
 	}
 	if res.Deadlock {
 		return fail("deadlock", "deadlock", "all tasks blocked")
+	}
+	if atReturn != nil {
+		if ok, why := planesEqual(atReturn, ref.Parent); !ok {
+			if okFinal, _ := samePlanes(dst.Parent, ref.Parent); okFinal {
+				return fail("incomplete-at-return", "incomplete-at-return:"+path, why+" in the destination when the call returned; the backing store became correct only later (work still running after the return)")
+			}
+		}
 	}
 	if ok, why := samePlanes(dst.Parent, ref.Parent); !ok {
 		class := "pixel-differs"
